@@ -97,3 +97,55 @@ Theorem C12_delete_then_find_by_id : forall ops c id,
     (t1 = T_ok (TL []) -> t2 = T_ok (T_of_opt_doc None)).
 Proof. exact history_delete_then_find_by_id. Qed.
 Print Assumptions C12_delete_then_find_by_id.
+
+(* ---- adequacy of the abstract specification S (Proofs/SpecAdequacyProofs.v): consequences of a_step alone, no store, model or refinement lemma ---- *)
+From Coq Require Import Permutation Sorted.
+From Clover Require Import HistoryProofs CompositeSpec CompositeProofs IndexIndepProofs AbstractSpecProofs SpecAdequacyProofs.
+Theorem C12_spec_insert_ok : forall c docs fresh a t a' p,
+  a_closed a = false -> a_step (OInsert c docs fresh) a t a' -> t = T_ok p ->
+  let ds := assign_ids docs fresh in
+  exists sc,
+    assoc c (a_db a) = Some sc /\
+    (* the inserted ids are pairwise distinct and none was present *)
+    NoDup (map object_id ds) /\
+    (forall d, In d ds -> assoc (object_id d) (sc_docs sc) = None /\ validate d = true) /\
+    (* the state afterwards: the batch appended, indexes and the other collections untouched *)
+    a_closed a' = false /\
+    a_db a' = assoc_set c (mkSC (sc_docs sc ++ map (fun d => (object_id d, d)) ds) (sc_idx sc)) (a_db a) /\
+    (* FindById answers that very document for each of them *)
+    (forall d t2 a2, In d ds -> a_step (OFindById c (object_id d)) a' t2 a2 ->
+       t2 = T_ok (T_of_opt_doc (Some d)) /\ a2 = a') /\
+    (* every previously stored document is unchanged *)
+    (forall id d0 t2 a2, assoc id (sc_docs sc) = Some d0 -> a_step (OFindById c id) a' t2 a2 ->
+       t2 = T_ok (T_of_opt_doc (Some d0)) /\ a2 = a') /\
+    (* and nothing else is stored *)
+    (forall id t2 a2, assoc id (sc_docs sc) = None -> ~ In id (map object_id ds) ->
+       a_step (OFindById c id) a' t2 a2 -> t2 = T_ok (T_of_opt_doc None)).
+Proof. exact spec_insert_ok. Qed.
+Print Assumptions C12_spec_insert_ok.
+
+Theorem C12_spec_insert_dup : forall c docs fresh a t a' sc,
+  a_closed a = false -> a_step (OInsert c docs fresh) a t a' ->
+  assoc c (a_db a) = Some sc ->
+  let ds := assign_ids docs fresh in
+  (~ NoDup (map object_id ds) \/ exists d, In d ds /\ assoc (object_id d) (sc_docs sc) <> None) ->
+  a' = a /\ (t = T_err EDupKey \/ t = T_err EOther) /\
+  ((forall d, In d ds -> validate d = true) -> t = T_err EDupKey).
+Proof. exact spec_insert_dup. Qed.
+Print Assumptions C12_spec_insert_dup.
+
+Theorem C12_spec_update_by_id : forall c id u a t a',
+  a_closed a = false -> wf_db (a_db a) -> a_step (OUpdateById c id u) a t a' ->
+  a_closed a' = false /\
+  (forall c0, option_map (fun sc => map fst (sc_docs sc)) (assoc c0 (a_db a')) =
+              option_map (fun sc => map fst (sc_docs sc)) (assoc c0 (a_db a))) /\
+  (forall sc' d', assoc c (a_db a') = Some sc' -> assoc id (sc_docs sc') = Some d' -> object_id d' = id) /\
+  (forall p, t = T_ok p ->
+     exists sc d d', assoc c (a_db a) = Some sc /\ assoc id (sc_docs sc) = Some d /\
+       apply_updater u d = Some d' /\ object_id d' = id /\ validate d' = true /\
+       a_db a' = assoc_set c (mkSC (assoc_set id d' (sc_docs sc)) (sc_idx sc)) (a_db a) /\
+       (forall id0, id0 <> id ->
+          assoc id0 (assoc_set id d' (sc_docs sc)) = assoc id0 (sc_docs sc))) /\
+  (forall e, t = T_err e -> a' = a).
+Proof. exact spec_update_by_id. Qed.
+Print Assumptions C12_spec_update_by_id.
